@@ -54,7 +54,8 @@ IntegrateBySize(da, g) ==
     ELSE [ outcome |-> "Rejected" ]
 
 (* ---- Laws ------------------------------------------------------------------------------- *)
-CONSTANTS MaxF,      \* Laws: largest number of faces
+CONSTANTS AreasReturn,   \* Laws: "fresh" | "cached" (what a grid hands out as areas; "cached" must be refuted)
+          MaxF,      \* Laws: largest number of faces
           Vals,      \* Laws: data values
           Wts        \* Laws: face weights (positive integers)
 
@@ -100,6 +101,32 @@ SizeRuleDiffersOnlyOnCoincidence == stage = 1 =>
     \A d \in ElemDims :
         (IntegrateBySize(Arr(d, g.lead, x), g).outcome = Integrate(Arr(d, g.lead, x), g).outcome)
         <=> (d = "n_face" \/ SizeOf(g, d) # g.nf)
+\* results belong to the caller: what a caller does, in place, to areas an earlier call RETURNED to it can
+\* not change a later integral.  AreasReturn = "cached" models a grid that hands out its stored areas
+\* themselves; TLC refutes EditIsolation for it (the configuration that runs it expects so).
+AreasSeenAfterEdit(gr, e) == IF AreasReturn = "cached" THEN [ f \in 1..gr.nf |-> gr.A[f] * e ] ELSE gr.A
+EditIsolation == stage = 1 =>
+    \A e \in {0, 2} : Integrate(Arr("n_face", g.lead, x), [ g EXCEPT !.A = AreasSeenAfterEdit(g, e) ]).data
+                       = Integrate(Arr("n_face", g.lead, x), g).data
+\* integrating over a SUBSET of the faces (a derived grid holding exactly the selected faces, with their
+\* areas) is the weighted sum over the selected faces, and the parts of a partition add up to the whole
+SelSet(name, n) == CASE name = "evens" -> { f \in 1..n : f % 2 = 1 }        \* 0-based even = 1-based odd positions
+                     [] name = "odds"  -> { f \in 1..n : f % 2 = 0 }
+                     [] name = "low"   -> { f \in 1..n : f <= n \div 2 }
+                     [] name = "high"  -> { f \in 1..n : f > n \div 2 }
+Comp(name) == CASE name = "evens" -> "odds" [] name = "odds" -> "evens" [] name = "low" -> "high" [] name = "high" -> "low"
+RECURSIVE Pick(_, _, _)
+Pick(row, S, k) == IF k > Len(row) THEN <<>> ELSE (IF k \in S THEN <<row[k]>> ELSE <<>>) \o Pick(row, S, k + 1)
+SubIntegral(tab, gr, S) == [ l \in DOMAIN tab |-> Dot1(Pick(tab[l], S, 1), Pick(gr.A, S, 1)) ]
+Masked(tab, S) == [ l \in DOMAIN tab |-> [ f \in DOMAIN tab[l] |-> IF f \in S THEN tab[l][f] ELSE 0 ] ]
+SubsetLaws == stage = 1 =>
+    \A nm \in {"evens", "low"} :
+        LET S == SelSet(nm, g.nf)  T == SelSet(Comp(nm), g.nf)
+            whole == Integrate(Arr("n_face", g.lead, x), g).data
+        IN /\ S \cup T = 1..g.nf /\ S \cap T = {}
+           /\ \A l \in DOMAIN whole :
+                 /\ SubIntegral(x, g, S)[l] + SubIntegral(x, g, T)[l] = whole[l]
+                 /\ SubIntegral(x, g, S)[l] = Integrate(Arr("n_face", g.lead, Masked(x, S)), g).data[l]
 Positive == stage = 1 => ((\A l \in DOMAIN x : \A f \in DOMAIN x[l] : x[l][f] >= 0) =>
                              \A l \in DOMAIN x : Integrate(Arr("n_face", g.lead, x), g).data[l] >= 0)
 
@@ -158,7 +185,7 @@ CaseInit == /\ c \in { [ gi |-> gi, kind |-> k ] : gi \in 1..Len(Grids), k \in 1
 \* dataset holding the one variable.
 CaseRec(ls, dt, q, pv, p, lay, sto, api) ==
     [ gi |-> c.gi, kind |-> c.kind, lead |-> ls, dtype |-> dt, quad |-> q, prev |-> pv, pat |-> p,
-      layout |-> lay, storage |-> sto, api |-> api ]
+      layout |-> lay, storage |-> sto, api |-> api, sel |-> "" ]
 AllLeads == LeadShapes \cup { << Grids[c.gi].nf >> }          \* also a square table: lead length = n_face
 CaseNext == /\ DOMAIN c = {"gi", "kind"} /\ UNCHANGED <<g, x, y, stage, ji>>
             /\ c' \in
@@ -170,9 +197,24 @@ CaseNext == /\ DOMAIN c = {"gi", "kind"} /\ UNCHANGED <<g, x, y, stage, ji>>
                        p \in (IF c.kind = 1 THEN {"ramp", "mixed"} ELSE {"ramp"}) }
                  \cup { CaseRec(ls, dt, q, "none", "ramp", "last", "dask", "dataarray") :
                        ls \in AllLeads, dt \in {"float64", "int64"}, q \in Quads }
+                 \* the caller edited, in place, the areas an earlier compute_face_areas(same rule, same order) returned
+                 \cup { CaseRec(ls, dt, q, pv, p, "last", "numpy", "dataarray") :
+                       ls \in { <<>>, <<2>> }, dt \in {"float64", "int64"}, q \in Quads,
+                       pv \in (IF c.kind = 1 THEN {"edit_same_scale", "edit_same_zero", "edit_default_scale"} ELSE {}),
+                       p \in {"ramp", "ones"} }
+                 \* a subset (UxDataArray.isel on n_face) of a parent on which nothing (or only face_areas) was read
+                 \* before; only on grids with mixed face sizes (padded tables)
+                 \cup { [ CaseRec(ls, "float64", q, pv, p, "last", "numpy", "isel") EXCEPT !.sel = sl ] :
+                       ls \in { <<>>, <<2>> }, q \in Quads,
+                       pv \in (IF c.kind = 1 /\ Grids[c.gi].mixed THEN {"none", "face_areas"} ELSE {}),
+                       p \in {"ramp", "ones"}, sl \in {"evens", "odds", "low", "high"} }
                  \cup { CaseRec(ls, dt, q, "none", p, "last", "numpy", "dataset") :
                        ls \in { <<>>, <<2>>, << Grids[c.gi].nf >> }, dt \in {"float64", "int64"}, q \in Quads,
                        p \in (IF c.kind = 1 THEN {"ramp", "ones"} ELSE {"ramp"}) }
+\* ascending 0-based indices of a set of 1-based positions
+RECURSIVE Asc0(_, _, _)
+Asc0(S, k, n) == IF k > n THEN <<>> ELSE (IF k \in S THEN <<k - 1>> ELSE <<>>) \o Asc0(S, k + 1, n)
+SetToSortSeq0(S) == Asc0(S, 1, 64)
 CaseFull == "pat" \in DOMAIN c
 CaseArr ==
     LET gr == Grids[c.gi]
@@ -192,7 +234,10 @@ HasFaceDim(da) == \E k \in 1..Len(da.dims) : da.dims[k] = "n_face"
 WithoutFace(dims) == SelectSeq(dims, LAMBDA d : d # "n_face")
 CaseExpected ==
     LET da == CaseArr IN
-    IF FaceCentred(da)
+    IF c.api = "isel"
+    THEN [ outcome |-> "Value", dims |-> Front(da.dims), name |-> da.name, shape |-> c.lead,
+           coeff |-> Masked(da.data, SelSet(c.sel, Grids[c.gi].nf)) ]       \* the unselected faces do not count
+    ELSE IF FaceCentred(da)
     THEN [ outcome |-> "Value", dims |-> Front(da.dims), name |-> da.name, shape |-> c.lead, coeff |-> da.data ]
     ELSE IF HasFaceDim(da)
     THEN [ outcome |-> "ValueOrRejected", dims |-> WithoutFace(da.dims), name |-> da.name, shape |-> c.lead, coeff |-> da.data ]
@@ -207,6 +252,9 @@ CaseSquare == Len(c.lead) >= 1 /\ c.lead[Len(c.lead)] = Grids[c.gi].nf
 CaseEmit == CaseFull => PrintT(<<"K", [ grid |-> Grids[c.gi].id, kind |-> Kinds[c.kind], lead |-> c.lead, dtype |-> c.dtype,
                                         quad |-> c.quad, prev |-> c.prev, pat |-> c.pat, dims |-> CaseArr.dims,
                                         layout |-> c.layout, storage |-> c.storage, api |-> c.api, square |-> CaseSquare,
+                                        sel |-> c.sel,
+                                        sel_faces |-> IF c.api = "isel" THEN SetToSortSeq0(SelSet(c.sel, Grids[c.gi].nf)) ELSE <<>>,
+                                        comp_faces |-> IF c.api = "isel" THEN SetToSortSeq0(SelSet(Comp(c.sel), Grids[c.gi].nf)) ELSE <<>>,
                                         name |-> CaseArr.name, table |-> CaseArr.data,
                                         parts |-> IF c.pat = "lin" /\ c.dtype # "bool" /\ c.kind = 1 /\ c.layout = "last" /\ c.api = "dataarray"
                                                   THEN << LinA, LinB,
@@ -241,10 +289,11 @@ JClauses(r) ==
       KeepsGrid          |-> (got /\ uxda) => (r.is_uxda /\ r.same_grid),
       WeightedSum        |-> got => Within12(r.q),
       LinearInData       |-> (got /\ Has(r, "qlin")) => Within12(r.qlin),
-      OneGivesTotalArea  |-> (got /\ Has(r, "qone")) => Within12(r.qone) ]
+      OneGivesTotalArea  |-> (got /\ Has(r, "qone")) => Within12(r.qone),
+      PartitionIntegralsAdd |-> (got /\ Has(r, "qpart")) => Within12(r.qpart) ]
 JFailed(r) == LET cl == JClauses(r) IN { k \in DOMAIN cl : ~cl[k] }
 Judge == ji > 0 => LET r == Recs[ji]  fl == JFailed(r) IN
                   fl = {} \/ PrintT(<<"V", r.id, fl, IF r.coincident THEN "coincident-size" ELSE "distinct-size",
                                        [ api |-> r.api, layout |-> r.layout, storage |-> r.storage,
-                                         square |-> r.square ]>>)
+                                         square |-> r.square, prev |-> r.prev ]>>)
 =============================================================================
